@@ -79,3 +79,36 @@ def build(profile):
     log(f"[build] {profile}: {time.time()-t0:.1f}s")
     _built[profile] = b
     return b
+
+
+_cli = {}
+
+
+def build_cli():
+    """The repository's own command line tool (`jbk`, feature build_bin) built from /repo's current tree: a second entry
+    point for C04 (`jbk check`), C10 (`jbk concat`) and C12 (`jbk locate`). Exports JBK_CLI for the workers. When it does not
+    build, the workers use the library calls only and count 'command_line_tool_unavailable' (never a verdict)."""
+    if "path" in _cli:
+        return _cli["path"]
+    from .common import REPO
+    t0 = time.time()
+    tdir = os.path.join(HARNESS, "target-cli")
+    cmd = ["cargo", "build", "--offline", "--release", "--features", "build_bin,lz4,lzma,zstd", "--bin", "jbk", "--target-dir", tdir]
+    path = None
+    try:
+        p = subprocess.run(cmd, cwd=REPO, env=env(), stdout=subprocess.PIPE, stderr=subprocess.STDOUT, text=True, timeout=1800)
+        b = os.path.join(tdir, "release", "jbk")
+        if p.returncode == 0 and os.path.exists(b):
+            path = b
+            log(f"[build] jbk command line tool: {time.time()-t0:.1f}s")
+        else:
+            tail = "\n".join(p.stdout.splitlines()[-8:])
+            log(f"[build] the jbk command line tool does not build (library entry points only). Last lines:\n{tail}")
+    except Exception as e:  # noqa
+        log(f"[build] the jbk command line tool could not be built: {e}")
+    _cli["path"] = path
+    if path:
+        os.environ["JBK_CLI"] = path
+    else:
+        os.environ.pop("JBK_CLI", None)
+    return path
